@@ -135,6 +135,9 @@ def predicate_forms(p):
     if p["op"] == "coleq":
         other = text(p["val"][1])
         return [(lambda r: r[0] == r[1], [col, other]), (f"{col} == {other}", [col, other])]
+    if p["op"] == "colgt":
+        other = text(p["val"][1])
+        return [(lambda r: r[0] > r[1], [col, other]), (f"{col} > {other}", [col, other])]
     v = pyval(p["val"])
     op = p["op"]
     fn = {
@@ -233,7 +236,15 @@ def relational_case(rec):
         elif act == "GetColumns":
             (cols,) = args
             same_table(t.get_columns(list(cols)), to, check_header=hdr)
-            same_table(t[:, list(cols)], to, tag="getitem:", check_header=hdr)
+            asked = {"header": list(cols), "rows": to["listed"]}
+            if frm["tab"].get("index"):
+                same_records(t[:, list(cols)], asked, tag="getitem:")
+            else:
+                same_table(t[:, list(cols)], asked, tag="getitem:", check_header=hdr)
+            got = t.to_list(list(cols))
+            got = norm_rows([[v] for v in got] if len(cols) == 1 else got)
+            if got != spec_rows(to["listed"]):
+                raise Diff("to_list(columns)", {"expected": spec_rows(to["listed"]), "observed": got})
         elif act == "WithNewColumn":
             new, f = args
             for form, (cb, columns) in zip(("callable", "expr"), derivation_forms(f)):
